@@ -122,11 +122,15 @@ pub fn gen_base(c: &mut Case<'_>, allow_body: bool) -> Base {
             // (runs of spaces only: how signers treat horizontal tabs differs and is not asserted)
             value.insert_str(at, *c.t.pick(&["  ", "   ", "    "]));
         }
-        if headers.iter().any(|(n, _)| *n == name) {
+        if let Some(prev) = headers.iter().find(|(n, _)| *n == name).map(|(_, v)| v.clone()) {
             if !name.starts_with("x-verif-") || !c.allow("hdr-repeated-name") {
                 continue;
             }
             feat.repeated_header = true;
+            // the same value on two lines is still two values (canonical form `v,v`)
+            if c.t.chance(96) {
+                value = prev;
+            }
         }
         let trimmed = value.trim_matches([' ', '\t']);
         if trimmed.contains("  ") || trimmed.contains('\t') {
@@ -226,10 +230,36 @@ fn fmt_auth(a: &sigv4::ParsedAuth) -> String {
 fn mutate(c: &mut Case<'_>, req: &mut Req, signed: &[String]) -> Option<String> {
     let kinds = [
         "signed-header-value", "signed-header-removed", "query-value", "query-name", "query-added", "query-removed", "path-byte", "method", "body-byte", "signature-digit", "access-key-other", "access-key-unknown",
-        "scope-date", "scope-region", "scope-service", "amz-date", "signed-header-added-to-list", "signature-length", "signature-case",
+        "scope-date", "scope-region", "scope-service", "amz-date", "signed-header-added-to-list", "signature-length", "signature-case", "body-added", "signed-header-line-duplicated",
     ];
     let kind = *c.t.pick(&kinds);
     match kind {
+        "body-added" => {
+            // a request signed with the digest of the empty body gets a body, sent framed, with or without a length
+            if !req.body.is_empty() || req.header("x-amz-content-sha256") != Some(EMPTY_SHA256) || matches!(req.method.as_str(), "GET" | "HEAD") {
+                return None;
+            }
+            req.body = b"content the signer never saw".to_vec();
+            let cl_signed = signed.iter().any(|n| n == "content-length");
+            if !cl_signed && c.t.bool() {
+                let len = req.body.len().to_string();
+                req.headers.retain(|(n, _)| n != "content-length");
+                req.headers.push(("content-length".into(), len));
+            } else if !cl_signed {
+                req.headers.retain(|(n, _)| n != "content-length");
+            }
+        }
+        "signed-header-line-duplicated" => {
+            // one more line with the same name and the same value: the canonical value becomes `v,v`
+            let cands: Vec<usize> = req.headers.iter().enumerate().filter(|(_, (n, _))| signed.contains(n) && n.starts_with("x-verif-")).map(|(i, _)| i).collect();
+            if cands.is_empty() {
+                return None;
+            }
+            let i = *c.t.pick(&cands);
+            let line = req.headers[i].clone();
+            let at = if c.t.bool() { i + 1 } else { req.headers.len() };
+            req.headers.insert(at, line);
+        }
         "signature-length" => {
             // a proper prefix (including the empty one), or the signature followed by more hex digits
             let cut = c.t.below(64);
